@@ -510,6 +510,7 @@ fn gen_program(rng: &mut Rng, arch: &'static str, thorough: bool, tr: &dyn Trans
         _ => rng.range(20, max_items) as usize,
     };
     let use_indirect = rng.chance(1, 4);
+    let mut tags: BTreeSet<&'static str> = BTreeSet::new();
     let branchiness = *rng.pick(&[3u64, 6, 12, 30]);
     // skeleton: which items are control transfers
     let mut items: Vec<Item> = Vec::new();
@@ -533,12 +534,31 @@ fn gen_program(rng: &mut Rng, arch: &'static str, thorough: bool, tr: &dyn Trans
                 _ => word(arch, 0xd61f_0220),
             };
             items.push(Item { bytes, ctl: Ctl::Indirect, rel: 0, slot: false });
-        } else if rng.chance(1, 14) {
-            let bytes = match arch {
+        } else if rng.chance(1, 10) {
+            let ret = match arch {
                 "x86" | "amd64" => vec![0xc3],
                 "mips" | "mipsel" => word(arch, 31 << 21 | 8),
                 "ppc" => word(arch, 0x4e80_0020),
                 _ => word(arch, 0xd65f_03c0),
+            };
+            // half of the time a direct call instead of a return: it too hands control to another function (a
+            // `Branch` operation), wherever in a block or translation window it happens to stand
+            let d = rng.below(64) as u32;
+            let call = match arch {
+                "x86" | "amd64" => {
+                    let mut v = vec![0xe8];
+                    v.extend_from_slice(&(d.wrapping_sub(32) as i32).to_le_bytes());
+                    v
+                }
+                "mips" | "mipsel" => word(arch, if rng.bool() { 3 << 26 | (0x0010_0000 + d) } else { 0x0411_0000 | d }),
+                "ppc" => word(arch, 18 << 26 | (d << 2) | 1),
+                _ => word(arch, 0x9400_0000 | d),
+            };
+            let bytes = if rng.bool() && supported(tr, arch, &call, true) {
+                tags.insert("call");
+                call
+            } else {
+                ret
             };
             items.push(Item { bytes, ctl: Ctl::End, rel: 0, slot: false });
         } else {
@@ -599,7 +619,6 @@ fn gen_program(rng: &mut Rng, arch: &'static str, thorough: bool, tr: &dyn Trans
         items.push(Item { bytes: word(arch, 0), ctl: Ctl::Plain, rel: 0, slot: true });
     }
     let n = items.len();
-    let mut tags: BTreeSet<&'static str> = BTreeSet::new();
     // clamp targets; MIPS: targets that are delay slots are rare and tagged
     for i in 0..n {
         let t = match items[i].ctl {
